@@ -7,6 +7,7 @@ From Supp Require Import Model.PyCore Model.Reach Model.Sem Model.SemX
   Proofs.ReachProofs Proofs.ReachCorollaries Proofs.SemXProofs.
 From Supp Require Import Model.ReachX Proofs.ReachXBridge.
 From Supp Require Import Model.Nested Proofs.NestedProofs Model.NestedRun Proofs.NestedRunProofs.
+From Supp Require Import Model.NestedCls Proofs.NestedClsProofs.
 
 (* Every run of every command (no restriction: return, break, continue, exceptions raised
    anywhere and caught by any enclosing try, finally clauses), from any state whose bound names
@@ -138,3 +139,33 @@ Print Assumptions C01_chain_run_visible.
 Example C01_chain_example :
   map snd (run_chain 20 [] [ex_outer; ex_inner] renv0 [0%nat]) = [[]; [(10, Some 1); (11, Some 3)]].
 Proof. vm_compute. reflexivity. Qed.
+
+(* ---- chains with CLASS levels (Model/NestedCls.v) ----------------------------------------------
+   A class body is analysed from the enclosing FUNCTION levels' final environment without shadowing;
+   a class level exports nothing to the scopes nested in it (tie (I): part D, chains mixing def and
+   class levels).  Run-time premise [rt_env_k]: a name can be bound at the start of a body only if an
+   enclosing function level (the module counts as one) binds it, and a function's own locals are
+   unbound.  For function and class levels alike: a read that finds its name bound is visible, no E02. *)
+Theorem C01_nested_visible_k : forall outers l fuel ds p p' tr o ds' r d,
+  rt_env_k outers l p ->
+  runX fuel (snd l) p ds = DoneX p' tr o ds' -> In (r, Some d) tr ->
+  visible_k outers l r = true /\ e02_k outers l r = false.
+Proof. exact nested_visible_k. Qed.
+Print Assumptions C01_nested_visible_k.
+
+Theorem C01_k_extends_function_chains : forall outers c r,
+  seen_k (map (fun b => (KFun, b)) outers) (KFun, c) r = seen_nested outers c r.
+Proof. exact seen_k_all_fun. Qed.
+Print Assumptions C01_k_extends_function_chains.
+
+(* Non-vacuity:  def main(): x = 1; if c: y = 2
+                     class C:  y = 3 (site 3)
+                         def m(self): print(x) (read 10); print(y) (read 12)
+   m sees main's x and main's y (site 2) - never the class's y (site 3). *)
+Definition ex_cls : cmd := Bind 3 1.
+Definition ex_meth : cmd := Seq (Read 10 0) (Read 12 1).
+Example C01_class_level_example :
+  forallb (alt_eqb (Some 1)) (seen_k [(KFun, ex_outer); (KCls, ex_cls)] (KFun, ex_meth) 10) = true /\
+  existsb (alt_eqb (Some 2)) (seen_k [(KFun, ex_outer); (KCls, ex_cls)] (KFun, ex_meth) 12) = true /\
+  existsb (alt_eqb (Some 3)) (seen_k [(KFun, ex_outer); (KCls, ex_cls)] (KFun, ex_meth) 12) = false.
+Proof. repeat split; vm_compute; reflexivity. Qed.
